@@ -41,6 +41,9 @@ SIG_UNUSED = 'lazy-table-without-used-column-not-registered'
 #: NOT a known finding: a read is served the rows an earlier read of a *different* statement returned (the result cache /
 #: the statement cache does not tell the two statements apart)
 SIG_ALIEN = 'read-returns-rows-of-another-statement'
+#: NOT a known finding: a read is served the rows of another feed of the process that shares the connection but maps the
+#: schemas to OTHER tables (known finding C06-F3 is about feeds whose SQL text is the same)
+SIG_FOREIGN = 'read-returns-rows-of-a-feed-with-another-mapping'
 
 
 def tup(x):
@@ -182,34 +185,72 @@ def _state():
     if 'engines' not in _STATE:
         _STATE['engines'] = Engines()
         _STATE['builder'] = dslgen.Builder()
+        _STATE['sugar'] = g.SugarBuilder()
         _STATE['prepared'] = {}
     return _STATE
 
 
-def prepare(stmt):
-    """build + parse a statement once per process (the DSL objects hash recursively: deep statements are slow)"""
+def prepare(stmt, sugar: bool = False):
+    """build + parse a statement once per process (the DSL objects hash recursively: deep statements are slow);
+    `sugar`: the expressions are written with the Python operators and plain values (`c06gen.SugarBuilder`)"""
     st = _state()
     cache = st['prepared']
-    if stmt not in cache:
+    key = (stmt, sugar)
+    if key not in cache:
         if len(cache) > 2000:
             cache.clear()
         try:
-            obj = st['builder'].build(stmt)
+            obj = st['sugar' if sugar else 'builder'].build(stmt)
         except Exception as err:  # pylint: disable=broad-except
-            cache[stmt] = ('skip', f'not constructible: {type(err).__name__}: {err}')
+            if sugar:
+                cache[key] = ('sugar-raises', type(err).__name__, str(err)[:120])
+            else:
+                cache[key] = ('skip', f'not constructible: {type(err).__name__}: {err}')
         else:
-            cache[stmt] = ('parsed', impl_parse(st['builder'], stmt, obj))
-    return cache[stmt]
+            other = None
+            if sugar:
+                try:
+                    back = g.read_back(obj)
+                    if g.unmirror(back) != g.unmirror(stmt):
+                        other = sugar_difference(stmt, back)
+                except Exception as err:  # pylint: disable=broad-except
+                    other = f'the constructed statement cannot be read back: {type(err).__name__}: {err}'[:200]
+            cache[key] = ('parsed', impl_parse(st['builder'], stmt, obj), other)
+    return cache[key]
 
 
-def judge(stmt, db) -> dict:
+def sugar_difference(want, got) -> str:
+    """the innermost expression a Python-operator expression was constructed differently from what it is written as"""
+    if isinstance(want, tuple) and isinstance(got, tuple) and len(want) == len(got):
+        for a, b in zip(want, got):
+            if g.unmirror(a) != g.unmirror(b) and isinstance(a, tuple) and isinstance(b, tuple):
+                inner = sugar_difference(a, b)
+                if inner:
+                    return inner
+    if isinstance(want, tuple) and want and want[0] == 'expr':
+        try:
+            return f'`{g.py_text(want)}` is constructed as {sexp.dumps(g.short(got))[:200]}'
+        except Exception:  # pylint: disable=broad-except
+            pass
+    return ''
+
+
+def judge(stmt, db, sugar: bool = False) -> dict:
     """Run one case on the real code and judge it by the oracle; -> outcome record (picklable)"""
     engines = _state()['engines']
-    rec = {'stmt': stmt, 'db': db, 'violations': [], 'impl': {}, 'parse': None, 'expected': None}
-    prepared = prepare(stmt)
+    rec = {'stmt': stmt, 'db': db, 'violations': [], 'impl': {}, 'parse': None, 'expected': None, 'sugar': sugar}
+    prepared = prepare(stmt, sugar)
     if prepared[0] == 'skip':
         rec['skip'] = prepared[1]
         return rec
+    if prepared[0] == 'sugar-raises':
+        rec['skip'] = 'sugar: construction raises'
+        rec['violations'].append((f'writing the statement with the Python operators raises {prepared[1]}: {prepared[2]}',
+                                  f'sugar-raises:{prepared[1]}'))
+        return rec
+    if prepared[2]:
+        rec['violations'].append((f'an expression written with the Python operators denotes another expression: {prepared[2]}',
+                                  'sugar-constructs-another-expression'))
     try:
         exp = g.denote(stmt, db)
         exp.deterministic  # pylint: disable=pointless-statement
@@ -263,8 +304,8 @@ def judge(stmt, db) -> dict:
 
 
 def judge_group(group) -> list:
-    stmt, dbs = group
-    return [judge(stmt, db) for db in dbs]
+    stmt, dbs = group[0], group[1]
+    return [judge(stmt, db, len(group) > 2 and group[2] == 'sugar') for db in dbs]
 
 
 CORPUS = None
@@ -337,16 +378,25 @@ class C06(fw.Check):
             'random ones (depth <= 2 of nesting) x 5 random table contents each (0..6 rows, empty tables, NULLs): 600 cases '
             'quick / 30000 thorough; each is parsed by the real alchemy parser and run on SQLite and DuckDB; a case is '
             'distinct by (statement, content) and non-trivial when the denoted result is not empty or the statement joins / '
-            'nests / groups; LIMIT / OFFSET windows over a total order, also inside nested statements. reader level (64 quick '
-            '/ 1200 thorough histories, every segment between restarts in a freshly forked process, one ForML home per '
-            'history): 10 hand-picked histories of the known findings and their harmless twins, 17 hand-picked FAMILY '
-            'histories, then alternately (a) family histories: 2..4 statements that differ in exactly ONE place (a literal '
-            '- incl. values with equal Python hashes and strings differing in case / trailing blank -, an operator, an '
-            'aggregate, a join or set kind, a direction, a reference name, an alias, two swapped aliases of a nested '
-            'statement, a LIMIT / OFFSET window) read interleaved and repeatedly through ONE feed (alchemy on SQLite or '
-            'monolite on CSV) over unchanged storage, half of them across a restart that keeps the home directory, and (b) '
-            'free histories of <= 5 ops {read feed, mutate storage, restart} over two alchemy feeds on two SQLite files '
-            'with equally named tables and two monolite feeds on CSV directories.')
+            'nests / groups; LIMIT / OFFSET windows over a total order, also inside nested statements; statements WRITTEN WITH '
+            'THE PYTHON OPERATORS of dsl.Operable and plain Python values on either side (c06gen.SugarBuilder: `100 - T.x`, '
+            '`5 < T.x`, `(T.a > 1) & ~T.flag`), executed like the others. operator surface (90 quick / 1500 thorough '
+            'expressions): every overloaded operator incl. division and modulus with plain values / columns / elements of '
+            'references on either side, nested: the constructed expression is read back and compared with the written one (up '
+            'to the interpreter\'s mirroring of comparisons) and with the model\'s dispatch. reader level (72 quick / 1200 '
+            'thorough histories, every segment between restarts in a freshly forked process, one ForML home per history; six '
+            'feeds: two alchemy feeds on two SQLite files, two more alchemy feeds on THE SAME connections that map the schemas '
+            'to other physical tables, two monolite feeds on directories whose tables are kept per history in a format of '
+            'their own - CSV with the class defaults, with user reader options that do not collide with them (separator) or '
+            'do (no header line), parquet, inline): 38 hand-picked histories (known findings and harmless twins, one-place '
+            'statement families, same statement through feeds sharing a connection, every file format), then in turn (a) '
+            'family histories: 2..4 statements that differ in exactly ONE place (a literal - incl. values with equal Python '
+            'hashes and strings differing in case / trailing blank -, an operator, an aggregate, a join or set kind, a '
+            'direction, a reference name, an alias, two swapped aliases of a nested statement, a LIMIT / OFFSET window) read '
+            'interleaved and repeatedly through ONE feed over unchanged storage, half of them across a restart that keeps the '
+            'home directory, (b) twin histories: the same statements through two feeds that share a connection but not the '
+            'tables, interleaved, also across restarts, and (c) free histories of <= 5 ops {read feed, mutate storage, '
+            'restart} over all feeds.')
     TRUSTED = [
         'SQLAlchemy rendering of the select constructs, SQLite and DuckDB (the abstract SQL semantics `evalSql` is tied to '
         'them by the correspondence only)',
@@ -371,7 +421,8 @@ class C06(fw.Check):
 
     # ---- generated tables -------------------------------------------------------------------------------------------
     def gen_tables(self) -> dict:
-        return {os.path.join('ForML', 'Generated', 'C06Tables.lean'): render_tables(extract_tables())}
+        return {os.path.join('ForML', 'Generated', 'C06Tables.lean'): render_tables(extract_tables()),
+                os.path.join('ForML', 'Generated', 'C06Sugar.lean'): render_sugar(extract_sugar())}
 
     # ---- parser level -------------------------------------------------------------------------------------------------
     def _cases(self, n: int) -> list:
@@ -389,6 +440,9 @@ class C06(fw.Check):
         for nested in (False, True):
             for stmt in g.limit_family(rng, nested):
                 groups.append((stmt, [g.gen_db(rng, 0.05) for _ in range(PER)]))
+        # statements written with the Python operators and plain values on either side (`c06gen.SugarBuilder`)
+        for _ in range(max(6, n // (PER * 12))):
+            groups.append((g.sugar_statement(rng), [g.gen_db(rng, 0.05) for _ in range(PER)], 'sugar'))
         while len(groups) * PER < n:
             if rng.random() < 0.04:
                 groups.append((rng.choice(g.limit_family(rng, rng.random() < 0.5)), [g.gen_db(rng, 0.05) for _ in range(PER)]))
@@ -396,9 +450,14 @@ class C06(fw.Check):
             groups.append((gen.statement(2 if rng.random() < 0.2 else 1), [g.gen_db(rng) for _ in range(PER)]))
         return groups
 
-    def _witness(self, stmt, db) -> dict:
-        return {'kind': 'parser', 'stmt': stmt, 'db': {k: [v[0], [list(r) for r in v[1]]] for k, v in db.items()},
-                'text': sexp.dumps(g.short(stmt))}
+    def _witness(self, stmt, db, sugar: bool = False) -> dict:
+        w = {'kind': 'parser', 'stmt': stmt, 'db': {k: [v[0], [list(r) for r in v[1]]] for k, v in db.items()},
+             'text': sexp.dumps(g.short(stmt))}
+        if sugar:
+            w['sugar'] = True
+            w['python'] = {'select': [g.py_text(f) for f in stmt[2]], 'where': None if stmt[3] is None else g.py_text(stmt[3])} \
+                if stmt[0] == 'query' else None
+        return w
 
     def _report(self, rec) -> None:
         for what, sig in rec['violations']:
@@ -408,15 +467,16 @@ class C06(fw.Check):
                 continue  # one (minimised) witness per root cause
             stmt, db = rec['stmt'], rec['db']
             if sig not in self._known_signatures():
-                stmt, db = self._shrink(stmt, db, sig)
-            self.violate(what, self._witness(stmt, db), sig, detail={'impl': {k: repr(v)[:400] for k, v in rec['impl'].items()}})
+                stmt, db = self._shrink(stmt, db, sig, rec.get('sugar', False))
+            self.violate(what, self._witness(stmt, db, rec.get('sugar', False)), sig,
+                         detail={'impl': {k: repr(v)[:400] for k, v in rec['impl'].items()}})
 
     def _known_signatures(self) -> set:
         if not hasattr(self, '_known'):
             self._known = {e['signature'] for e in fw._load_findings(self.ID) if e.get('status') == 'finding'}  # pylint: disable=protected-access
         return self._known
 
-    def _shrink(self, stmt, db, sig):
+    def _shrink(self, stmt, db, sig, sugar: bool = False):
         """greedy: smaller statement / fewer rows with the same signature on the real code"""
         budget = 25
 
@@ -426,7 +486,7 @@ class C06(fw.Check):
                 return False
             budget -= 1
             try:
-                return any(x[1] == sig for x in judge(s, d)['violations'])
+                return any(x[1] == sig for x in judge(s, d, sugar)['violations'])
             except Exception:  # pylint: disable=broad-except
                 return False
 
@@ -475,6 +535,8 @@ class C06(fw.Check):
             stmt, db = rec['stmt'], rec['db']
             if 'skip' in rec:
                 skipped[rec['skip'].split(':')[0]] += 1
+                if rec['violations']:
+                    self._report(rec)
                 continue
             exp = rec['expected']
             nontrivial = bool(exp.all_rows) or g.shape(stmt) != 'plain'
@@ -526,17 +588,23 @@ class C06(fw.Check):
 
     # ---- reader level -------------------------------------------------------------------------------------------------
     def _histories(self, n: int) -> list:
-        """reader-level histories: the hand-picked ones, then alternately (a) reads of one-place *families* of
-        statements through one feed over unchanged storage — in one process and across restarts — and (b) free
-        histories {read any feed, mutate, restart}"""
+        """reader-level histories (dbs, ops[, cfg]): the hand-picked ones, then in turn (a) reads of one-place *families*
+        of statements through one feed over unchanged storage, (b) *twin* histories: the same statements through feeds
+        that share a connection but map the schemas to other tables, (c) free histories {read any feed, mutate,
+        restart}; the file backed storages keep every table in a randomly chosen format"""
         rng = self.rng
         gen = g.Gen6(rng, named_top=True, plain_groups=True)
-        out = list(HISTORY_CORPUS()) + list(FAMILY_CORPUS())
+        out = list(HISTORY_CORPUS()) + list(FAMILY_CORPUS()) + list(TWIN_CORPUS()) + list(FORMAT_CORPUS())
         k = 0
         while len(out) < n:
             k += 1
-            if k % 2:
+            if k % 3 == 1:
                 hist = self._family_history(gen)
+                if hist is not None:
+                    out.append(hist)
+                continue
+            if k % 3 == 2:
+                hist = self._twin_history(gen)
                 if hist is not None:
                     out.append(hist)
                 continue
@@ -545,21 +613,57 @@ class C06(fw.Check):
                 stmt = self._history_statement(gen)
                 if stmt is not None:
                     pool.append(stmt)
-            dbs = [g.gen_db(rng, 0.05) for _ in range(2)] + [gen_db_nonnull(rng) for _ in range(2)]
+            dbs = self._storages()
             ops = []
             for _ in range(rng.randint(2, 5)):
                 c = rng.random()
                 if c < 0.62:
-                    ops.append(('read', rng.randrange(4), rng.choice(pool)))
+                    ops.append(('read', rng.randrange(len(FEED_KINDS)), rng.choice(pool)))
                 elif c < 0.87:
-                    i = rng.randrange(4)
-                    ops.append(('mutate', i, g.gen_db(rng, 0.05) if i < 2 else gen_db_nonnull(rng)))
+                    i = rng.randrange(NSTORAGES)
+                    ops.append(('mutate', i, g.gen_db6(rng, 0.05) if i < 2 else gen_db_nonnull(rng)))
                 else:
                     ops.append(('restart',))
             if not any(o[0] == 'read' for o in ops):
-                ops.append(('read', rng.randrange(4), rng.choice(pool)))
-            out.append((dbs, ops))
+                ops.append(('read', rng.randrange(len(FEED_KINDS)), rng.choice(pool)))
+            out.append((dbs, ops, self._formats()))
         return out
+
+    def _storages(self) -> list:
+        rng = self.rng
+        return [g.gen_db6(rng, 0.05) for _ in range(2)] + [gen_db_nonnull(rng) for _ in range(2)]
+
+    def _formats(self) -> dict:
+        """every table of the file backed storages in a format of its own (half of the histories: plain CSV throughout)"""
+        rng = self.rng
+        if rng.random() < 0.5:
+            return {}
+        return {'formats': {str(i): {t[1]: rng.choice(list(g.FORMATS)) for t in g.CATALOG} for i in (2, 3)}}
+
+    def _twin_history(self, gen):
+        """feeds that share a connection (one SQLite file) but map the schemas to other physical tables read the SAME
+        statements, interleaved, in one process and across restarts: each must get its own tables' rows"""
+        rng = self.rng
+        dbs = self._storages()
+        base = rng.choice((0, 1))
+        pair = [base, base + 4]
+        stmts = []
+        for _ in range(30):
+            stmt = self._history_statement(gen)
+            if stmt is not None and all(family_member_ok(stmt, g.view(f, dbs[STORAGE[f]]), 'alchemy') for f in pair):
+                stmts.append(stmt)
+            if len(stmts) >= rng.randint(1, 2):
+                break
+        if not stmts:
+            return None
+        ops = []
+        for stmt in stmts:
+            rng.shuffle(pair)
+            ops.extend(('read', f, stmt) for f in pair)
+        ops.append(('read', rng.choice(pair), rng.choice(stmts)))
+        if rng.random() < 0.4:
+            ops.insert(rng.randint(1, len(ops) - 1), ('restart',))
+        return (dbs, ops)
 
     def _history_statement(self, gen):
         stmt = gen.statement(1)
@@ -574,8 +678,9 @@ class C06(fw.Check):
         """one feed, unchanged storage: reads of 2..4 statements that differ in exactly one literal / operator / alias /
         reference name / join or set kind / direction / LIMIT-OFFSET window, interleaved, repeated, across restarts"""
         rng = self.rng
-        feed = rng.choice((0, 0, 1, 2, 2, 3))
-        dbs = [g.gen_db(rng, 0.05) for _ in range(2)] + [gen_db_nonnull(rng) for _ in range(2)]
+        feed = rng.choice((0, 0, 1, 2, 2, 3, 4, 5))
+        dbs = self._storages()
+        cfg = self._formats()
         members = None
         for _ in range(20):
             if rng.random() < 0.25:
@@ -591,7 +696,7 @@ class C06(fw.Check):
                 weights = [{'lit': 6, 'op': 3, 'query': 3, 'alias': 1, 'ref': 1, 'join': 2, 'set': 2, 'ord': 1}[x] for x in sorts]
                 sort = rng.choices(sorts, weights)[0]
                 members = rng.choice([f[1] for f in fams if f[0] == sort])
-            members = [m for m in members if family_member_ok(m, dbs[feed], FEED_KINDS[feed])]
+            members = [m for m in members if family_member_ok(m, g.view(feed, dbs[STORAGE[feed]]), FEED_KINDS[feed])]
             if len(members) >= 2:
                 break
             members = None
@@ -605,18 +710,18 @@ class C06(fw.Check):
         ops = [('read', feed, m) for m in reads]
         if rng.random() < 0.5:
             ops.insert(rng.randint(1, len(ops) - 1), ('restart',))
-        return (dbs, ops)
+        return (dbs, ops, cfg)
 
-    def _shrink_history(self, dbs, ops, sig, budget: int = 8) -> list:
+    def _shrink_history(self, dbs, ops, sig, cfg=None, budget: int = 8) -> list:
         """greedy: drop operations before the failing read as long as the real feeds still fail it the same way"""
         i = 0
         while i < len(ops) - 1 and budget > 0:
             cand = ops[:i] + ops[i + 1:]
             budget -= 1
             try:
-                outs = run_history((dbs, cand), shared_zygote())
+                outs = run_history((dbs, cand, cfg or {}), shared_zygote())
                 last = len(cand) - 1
-                same = any(s_ == sig and at == last for _, s_, at in judge_history(dbs, cand, outs, read_alone))
+                same = any(s_ == sig and at == last for _, s_, at in judge_history(dbs, cand, outs, read_alone, cfg))
             except Exception:  # pylint: disable=broad-except
                 same = False
             if same:
@@ -627,26 +732,35 @@ class C06(fw.Check):
 
     def _reader_level(self, histories) -> None:
         lines = []
-        for dbs, ops in histories:
-            feeds = tuple((kind, g.short(g.sources_sexp() if kind == 'alchemy' else lazy_sources_sexp()), i)
+        for hist in histories:
+            dbs, ops = hist[0], hist[1]
+            formats = formats_of(hist[2] if len(hist) > 2 else None)
+            # a lazy feed also tells which origin class provides each table (`PARTITIONS` is keyed by class and source)
+            feeds = tuple((kind, g.short(g.sources_of(i)), STORAGE[i]) if kind == 'alchemy' else
+                          (kind, g.short(g.sources_of(i)), STORAGE[i],
+                           g.short(tuple((t, g.FORMATS[formats.get(STORAGE[i], {}).get(t[1], 'csv')][0]) for t in g.CATALOG)))
                           for i, kind in enumerate(FEED_KINDS))
-            # the storage of a lazy feed is addressed by the origin keys (`repr(source)`), not by the SQL table names
-            keyed = lambda i, d: g.db_sexp(d if FEED_KINDS[i] == 'alchemy' else {LAZY_KEY[k]: v for k, v in d.items()})  # noqa: E731
+            keyed = lambda i, d: storage_sexp(i, d, formats.get(i))  # noqa: E731
             mops = tuple(('read', o[1], g.short(o[2])) if o[0] == 'read' else ('mutate', o[1], keyed(o[1], o[2])) if o[0] == 'mutate'
                          else ('restart',) for o in ops)
             lines.append(sexp.dumps(g.with_let(('hist', feeds, tuple(keyed(i, d) for i, d in enumerate(dbs)), mops))))
         answers = self.model(lines)
         results = run_histories(histories)
-        for (dbs, ops), outs, ans in zip(histories, results, answers):
-            self.case(('hist', repr(ops), repr(dbs)), 'history:' + '-'.join(o[0][:2] + (str(o[1]) if len(o) > 1 else '') for o in ops), True,
-                      sample={'history': [o[0] if o[0] != 'read' else f'read f{o[1]}' for o in ops]})
-            verdicts = judge_history(dbs, ops, outs, read_alone)
+        for hist, outs, ans in zip(histories, results, answers):
+            dbs, ops = hist[0], hist[1]
+            cfg = hist[2] if len(hist) > 2 else {}
+            shape = 'history:' + '-'.join(o[0][:2] + (str(o[1]) if len(o) > 1 else '') for o in ops)
+            if formats_of(cfg):
+                shape += ':formats'
+            self.case(('hist', repr(ops), repr(dbs), repr(cfg)), shape, True,
+                      sample={'history': [o[0] if o[0] != 'read' else f'read f{o[1]}' for o in ops], 'formats': formats_of(cfg)})
+            verdicts = judge_history(dbs, ops, outs, read_alone, cfg)
             for what, sig, upto in verdicts:
                 if sig not in {v.signature for v in self.violations}:
                     prefix = list(ops[:upto + 1])
                     if sig not in self._known_signatures():
-                        prefix = self._shrink_history(dbs, prefix, sig)
-                    self.violate(what, history_witness(dbs, prefix), sig)
+                        prefix = self._shrink_history(dbs, prefix, sig, cfg)
+                    self.violate(what, history_witness(dbs, prefix, cfg), sig)
             try:
                 parsed = sexp.loads(ans)
                 m_run = [rel_from(x) for x in parsed[0][1:]]
@@ -664,9 +778,35 @@ class C06(fw.Check):
                 if m is None or collections.Counter(m[1]) != got:
                     self.diverge(f'read #{k} of a history: FeedCache model and the real reader differ', repr(ops)[:300], repr(out[1])[:300], repr(m)[:300])
 
+    def _sugar_level(self, probes) -> None:
+        """every overloaded operator (also division / modulus, which are not executed) with plain values and features on
+        either side: what the real `Operable` constructs must be the written expression (up to the interpreter's own
+        mirroring of comparisons), and must be what the model's dispatch (`ForML.Sugar.PyExpr.eval`) constructs"""
+        answers = self.model([sexp.dumps(g.with_let(('sugar', g.short(g.to_pyexpr(f))))) for f in probes])
+        builder = _state()['sugar']
+        for f, ans in zip(probes, answers):
+            self.case(('sugar', f), 'sugar:' + f[1], True, sample={'python': g.py_text(f)})
+            for what, sig in judge_probe(f):
+                if sig not in {v.signature for v in self.violations}:
+                    self.violate(what, {'kind': 'sugar', 'feature': f, 'python': g.py_text(f), 'text': sexp.dumps(g.short(f))}, sig)
+            try:
+                real = g.short(g.read_back(builder.feature(f)))
+            except Exception:  # pylint: disable=broad-except
+                real = None
+            try:
+                parsed = sexp.loads(ans)
+                model = None if parsed == 'none' else expand(parsed[1])
+            except Exception:  # pylint: disable=broad-except
+                self.diverge('model answer unreadable', g.py_text(f), None, ans[:200])
+                continue
+            if real is None or model is None or tup(expand(sexp.loads(sexp.dumps(real)))) != tup(model):
+                self.diverge('the expression the Python operators construct: model (ForML.Sugar) and implementation differ',
+                             g.py_text(f), repr(real)[:300], repr(model)[:300])
+
     def correspondence(self) -> None:
+        self._sugar_level(g.sugar_probes(self.rng, self.n(90, 1500)))
         self._parser_level(self._cases(self.n(600, 30000)))
-        self._reader_level(self._histories(self.n(64, 1200)))
+        self._reader_level(self._histories(self.n(72, 1200)))
 
     # ---- search / replay ----------------------------------------------------------------------------------------------
     def search(self, reason: str) -> None:
@@ -699,16 +839,21 @@ class C06(fw.Check):
 
     def replay_finding(self, entry: dict):
         w = entry['witness']
+        if w.get('kind') == 'sugar':
+            for what, sig in judge_probe(tup(w['feature'])):
+                return fw.Violation(what, w, sig)
+            return None
         if w.get('kind') == 'parser':
-            rec = judge(tup(w['stmt']), db_from_json(w['db']))
+            rec = judge(tup(w['stmt']), db_from_json(w['db']), bool(w.get('sugar')))
             for what, sig in rec['violations']:
                 return fw.Violation(what, w, sig)
             return None
         if w.get('kind') == 'history':
             dbs = [db_from_json(d) for d in w['dbs']]
             ops = [tuple(tup(x) if i != 2 or o[0] != 'mutate' else db_from_json(x) for i, x in enumerate(o)) for o in w['ops']]
-            outs = run_history((dbs, ops), shared_zygote())
-            for what, sig, _ in judge_history(dbs, ops, outs, read_alone):
+            cfg = {'formats': w['formats']} if w.get('formats') else {}
+            outs = run_history((dbs, ops, cfg), shared_zygote())
+            for what, sig, _ in judge_history(dbs, ops, outs, read_alone, cfg):
                 return fw.Violation(what, w, sig)
             return None
         raise fw.MachineryError(f'unknown witness kind {w.get("kind")}')
@@ -737,7 +882,92 @@ def expand(x):
     return walk(x)
 
 
+def judge_probe(f) -> list:
+    """oracle for one expression written with the Python operators: [(what, signature)]"""
+    try:
+        obj = _state()['sugar'].feature(f)
+    except Exception as err:  # pylint: disable=broad-except
+        return [(f'writing `{g.py_text(f)}` raises {type(err).__name__}: {str(err)[:120]}', f'sugar-raises:{type(err).__name__}')]
+    try:
+        back = g.read_back(obj)
+    except Exception as err:  # pylint: disable=broad-except
+        return [(f'`{g.py_text(f)}` constructs an object outside the DSL: {type(err).__name__}: {str(err)[:120]}', 'sugar-constructs-another-expression')]
+    if g.unmirror(back) != g.unmirror(f):
+        return [(f'an expression written with the Python operators denotes another expression: {sugar_difference(f, back) or g.py_text(f)}',
+                 'sugar-constructs-another-expression')]
+    return []
+
+
 # ---- generated tables ------------------------------------------------------------------------------------------------
+SUGAR_METHODS = ('__add__', '__radd__', '__sub__', '__rsub__', '__mul__', '__rmul__', '__truediv__', '__rtruediv__', '__mod__', '__rmod__',
+                 '__lt__', '__le__', '__gt__', '__ge__', '__eq__', '__ne__', '__and__', '__rand__', '__or__', '__ror__', '__invert__',
+                 '__neg__', '__pos__', '__abs__', '__pow__', '__rpow__', '__floordiv__', '__rfloordiv__', '__xor__', '__rxor__')
+
+
+def extract_sugar() -> dict:
+    """probe every operator method `Operable` defines with marker operands: method -> (class of the result, order)"""
+    from forml.io import dsl
+    from forml.io.dsl._struct import series
+
+    class Probe(dsl.Schema):
+        """marker columns"""
+
+        left = dsl.Field(dsl.Integer())
+        right = dsl.Field(dsl.Integer())
+        flag = dsl.Field(dsl.Boolean())
+        other = dsl.Field(dsl.Boolean())
+
+    out = {}
+    for name in SUGAR_METHODS:
+        if not any(name in vars(c) for c in series.Operable.__mro__ if c is not object):
+            continue
+        logical = name in ('__and__', '__rand__', '__or__', '__ror__', '__invert__', '__xor__', '__rxor__')
+        me, you = (Probe.flag, Probe.other) if logical else (Probe.left, Probe.right)
+        unary = name in ('__invert__', '__neg__', '__pos__', '__abs__')
+        try:
+            result = getattr(me, name)() if unary else getattr(me, name)(you)
+            if result is NotImplemented:
+                continue
+            result = getattr(result, 'operable', result) if type(result).__name__ == 'Pythonic' else result
+            cls = type(result).__name__
+            args = tuple(result)
+            if unary and len(args) == 1 and args[0] == me:  # pylint: disable=comparison-with-callable
+                order = 'self'
+            elif len(args) == 2 and _same(args[0], me) and _same(args[1], you):
+                order = 'self-other'
+            elif len(args) == 2 and _same(args[0], you) and _same(args[1], me):
+                order = 'other-self'
+            else:
+                order = 'other'
+        except Exception:  # pylint: disable=broad-except
+            cls, order = 'None', 'raises'
+        out[name] = (cls, order)
+    return out
+
+
+def _same(a, b) -> bool:
+    """structural identity of two features (their `==` is overloaded)"""
+    return dslgen.to_ast(a) == dslgen.to_ast(b)
+
+
+def render_sugar(table: dict) -> str:
+    rows = ',\n'.join(f'  ("{k}", ("{v[0]}", "{v[1]}"))' for k, v in sorted(table.items()))
+    return f'''/-
+GENERATED by harness/props/c06.py (Check.gen_tables) from the live forml objects — do not edit.
+`forml.io.dsl.Operable`'s Python operator methods, each probed with marker operands (`column.<method>(marker)`): the
+expression class of the result and the order in which `self` and `other` became its operands.
+-/
+namespace ForML.Generated.C06
+
+/-- operator method ↦ (expression class, operand order: `self-other` | `other-self` | `self` | `raises` | `other`) -/
+def sugar : List (String × (String × String)) := [
+{rows}
+]
+
+end ForML.Generated.C06
+'''
+
+
 _SQL_PATTERNS = {
     'p + q': '.add', 'p - q': '.sub', 'p * q': '.mul', 'p / q': '.div', 'p % q': '.mod', 'p < q': '.lt', 'p <= q': '.le',
     'p > q': '.gt', 'p >= q': '.ge', 'p = q': '.eq', 'p != q': '.ne', 'p IS NULL': '.isNull', 'p IS NOT NULL': '.isNotNull',
@@ -867,7 +1097,10 @@ end ForML.Generated.C06
 
 
 # ---- reader level: feeds, histories, worker ---------------------------------------------------------------------------
-FEED_KINDS = ('alchemy', 'alchemy', 'lazy', 'lazy')
+#: feeds / storages / mappings / file formats of the reader level: see c06gen.FEEDS
+FEED_KINDS = g.FEED_KINDS
+STORAGE = g.STORAGE
+NSTORAGES = len(g.STORAGE_KINDS)
 
 
 LAZY_KEY = {g.PHYS[t[1]]: t[1] for t in g.CATALOG}
@@ -876,6 +1109,26 @@ LAZY_KEY = {g.PHYS[t[1]]: t[1] for t in g.CATALOG}
 def lazy_sources_sexp():
     """`lazy.Feed.sources`: table -> `repr(source)` = the schema name"""
     return tuple((t, t[1]) for t in g.CATALOG)
+
+
+def storage_sexp(i: int, db: dict, formats=None):
+    """content of storage `i` for the model.  SQL storage: its tables.  File backed storage: per table (addressed by the
+    origin key `repr(source)`) either the rows, or - CSV origins - the user's reader options and the LINES of the file as
+    written (the model's `FileOrigin.loadCsv` decides what of them is content)"""
+    if g.STORAGE_KINDS[i] == 'alchemy':
+        return g.db_sexp(db)
+    out = []
+    for t in g.CATALOG:
+        plain = g.db_sexp({t[1]: db[g.PHYS[t[1]]]})[0]
+        group, kwargs, header = g.FORMATS[(formats or {}).get(t[1], 'csv')]
+        if group != 'csv':
+            out.append(plain)
+            continue
+        name, cols, rows = plain
+        options = tuple((k, 'None' if v is None else 'semicolon' if v == ';' else str(v)) for k, v in (kwargs or {}).items())
+        lines = ((tuple(('s', c) for c in cols),) if header else ()) + tuple(rows)
+        out.append((name, cols, ('csv', options, lines)))
+    return tuple(out)
 
 
 def lazy_ok(stmt) -> bool:
@@ -910,8 +1163,8 @@ def HISTORY_CORPUS():
     s2 = ('query', D, (e(D, 'id'), e(D, 'head')), ('expr', 'gt', e(D, 'id'), ('lit', ('int', 0))), (), None, (), None)
     s3 = ('query', P, (e(P, 'name'), e(P, 'id')), None, (), None, (('ord', e(P, 'id'), 'asc'),), None)
     s4 = ('query', ('join', P, D, 'cross', None), (e(P, 'name'),), None, (), None, (), None)
-    dbs = [g.gen_db(rng, 0.0), g.gen_db(rng, 0.0), gen_db_nonnull(rng), gen_db_nonnull(rng)]
-    other = [g.gen_db(rng, 0.0), g.gen_db(rng, 0.0), gen_db_nonnull(rng), gen_db_nonnull(rng)]
+    dbs = [g.gen_db6(rng, 0.0), g.gen_db6(rng, 0.0), gen_db_nonnull(rng), gen_db_nonnull(rng)]
+    other = [g.gen_db6(rng, 0.0), g.gen_db6(rng, 0.0), gen_db_nonnull(rng), gen_db_nonnull(rng)]
     return [
         (dbs, [('read', 0, s1), ('mutate', 0, other[0]), ('read', 0, s1)]),  # stale (memory)
         (dbs, [('read', 0, s1), ('mutate', 0, other[0]), ('restart',), ('read', 0, s1)]),  # stale (disk)
@@ -950,7 +1203,7 @@ def FAMILY_CORPUS():
     e = lambda s, n: ('elem', s, n)  # noqa: E731
     i = lambda n: ('lit', ('int', n))  # noqa: E731
     q = lambda src, sel=(), pre=None, grp=(), post=None, order=(), rows=None: ('query', src, tuple(sel), pre, tuple(grp), post, tuple(order), rows)  # noqa: E731
-    dbs = [g.gen_db(rng, 0.0), g.gen_db(rng, 0.0), gen_db_nonnull(rng), gen_db_nonnull(rng)]
+    dbs = [g.gen_db6(rng, 0.0), g.gen_db6(rng, 0.0), gen_db_nonnull(rng), gen_db_nonnull(rng)]
     age = lambda op, n: q(P, [e(P, 'id'), e(P, 'age')], ('expr', op, e(P, 'age'), i(n)))  # noqa: E731
     name = lambda v: q(D, [e(D, 'id'), e(D, 'name')], ('expr', 'eq', e(D, 'name'), ('lit', ('str', v))))  # noqa: E731
     page = lambda c, o, d='asc': q(U, [e(U, 'id'), e(U, 'name')], None, (), None, [('ord', e(U, 'id'), d)], ('rows', c, o))  # noqa: E731
@@ -992,11 +1245,77 @@ def FAMILY_CORPUS():
     ]
 
 
-def history_witness(dbs, ops) -> dict:
-    jdb = lambda d: {k: [v[0], [list(r) for r in v[1]]] for k, v in d.items()}  # noqa: E731
-    return {'kind': 'history', 'dbs': [jdb(d) for d in dbs],
-            'ops': [[o[0], o[1], o[2]] if o[0] == 'read' else [o[0], o[1], jdb(o[2])] if o[0] == 'mutate' else [o[0]] for o in ops],
-            'text': [o[0] if o[0] != 'read' else f'read feed{o[1]} {sexp.dumps(g.short(o[2]))}' for o in ops]}
+def TWIN_CORPUS():
+    """feeds that share a connection but map the schemas to other physical tables read the same statements"""
+    import random
+
+    rng = random.Random(67)
+    P, D = g.PERSON, g.DEPT
+    e = lambda s, n: ('elem', s, n)  # noqa: E731
+    dbs = [g.gen_db6(rng, 0.0), g.gen_db6(rng, 0.0), gen_db_nonnull(rng), gen_db_nonnull(rng)]
+    s1 = ('query', P, (e(P, 'id'), e(P, 'name')), None, (), None, (), None)
+    s2 = ('query', D, (e(D, 'id'), e(D, 'head')), ('expr', 'gt', e(D, 'id'), ('lit', ('int', 0))), (), None, (), None)
+    b = ('ref', P, 'b')
+    s3 = ('query', ('join', P, b, 'left', ('expr', 'eq', e(P, 'boss'), e(b, 'id'))), (e(P, 'id'), ('alias', e(b, 'name'), 'x')), None, (), None, (), None)
+    return [
+        (dbs, [('read', 0, s1), ('read', 4, s1)]),  # same statement, same connection, other tables
+        (dbs, [('read', 4, s2), ('read', 0, s2), ('read', 4, s1), ('read', 0, s1)]),
+        (dbs, [('read', 1, s3), ('read', 5, s3), ('restart',), ('read', 5, s3), ('read', 1, s3)]),
+        (dbs, [('read', 5, s1), ('restart',), ('read', 1, s1), ('read', 5, s2), ('read', 1, s2)]),
+        (dbs, [('read', 0, s1), ('read', 4, s1), ('read', 1, s1), ('read', 0, s1)]),  # + the cross-storage finding (known)
+    ]
+
+
+def FORMAT_CORPUS():
+    """file backed storages whose tables are kept in every format: plain CSV, reader options that do not / do collide with
+    the class defaults (separator; no header line), parquet, inline"""
+    import random
+
+    rng = random.Random(68)
+    P, D, U = g.PERSON, g.DEPT, g.UNIT
+    e = lambda s, n: ('elem', s, n)  # noqa: E731
+    dbs = [g.gen_db6(rng, 0.0), g.gen_db6(rng, 0.0), gen_db_nonnull(rng), gen_db_nonnull(rng)]
+    allof = lambda t: ('query', t, tuple(e(t, n) for n, _ in t[2]), None, (), None, (), None)  # noqa: E731
+    joined = ('query', ('join', D, U, 'inner', ('expr', 'eq', e(D, 'id'), e(U, 'id'))), (e(D, 'name'), ('alias', e(U, 'name'), 'x'), e(U, 'size')),
+              None, (), None, (), None)
+    fmt = lambda p, d, u: {'formats': {'2': {'Person': p, 'Dept': d, 'Unit': u}, '3': {'Person': u, 'Dept': p, 'Unit': d}}}  # noqa: E731
+    reads = lambda feed: [('read', feed, allof(P)), ('read', feed, allof(D)), ('read', feed, allof(U)), ('read', feed, joined)]  # noqa: E731
+    return [
+        (dbs, reads(2), fmt('csv-noheader', 'csv-semicolon', 'csv')),
+        (dbs, reads(3), fmt('csv-noheader', 'csv-semicolon', 'csv')),
+        (dbs, reads(2), fmt('parquet', 'inline', 'csv-noheader-semicolon')),
+        (dbs, reads(3), fmt('parquet', 'inline', 'csv-noheader-semicolon')),
+        (dbs, reads(2)[:2] + [('restart',)] + reads(2)[2:], fmt('csv-header0', 'csv-noheader', 'parquet')),
+        (dbs, reads(3)[:3], fmt('csv-header0', 'csv-noheader', 'parquet')),
+    ]
+
+
+def _jdb(d) -> dict:
+    return {k: [v[0], [list(r) for r in v[1]]] for k, v in d.items()}
+
+
+def _jop(o) -> list:
+    if o[0] == 'read':
+        return [o[0], o[1], o[2]] + list(o[3:])
+    return [o[0], o[1], _jdb(o[2])] if o[0] == 'mutate' else [o[0]]
+
+
+def formats_of(cfg) -> dict:
+    """{storage index: {Table: format}} of a history's configuration"""
+    return {int(k): v for k, v in ((cfg or {}).get('formats') or {}).items()}
+
+
+def history_witness(dbs, ops, cfg=None) -> dict:
+    def line(o):
+        if o[0] == 'read':
+            feed = f'feed{o[1]}[{FEED_KINDS[o[1]]} on storage {STORAGE[o[1]]}, mapping {g.MAPPING[o[1]]}]'
+            return f'read {feed} {sexp.dumps(g.short(o[2]))}'
+        return o[0] if o[0] != 'mutate' else f'mutate storage {o[1]}'
+
+    w = {'kind': 'history', 'dbs': [_jdb(d) for d in dbs], 'ops': [_jop(o) for o in ops], 'text': [line(o) for o in ops]}
+    if formats_of(cfg):
+        w['formats'] = {str(k): v for k, v in formats_of(cfg).items()}
+    return w
 
 
 class Zygote:
@@ -1049,15 +1368,16 @@ def shared_zygote() -> Zygote:
 
 def run_history(history, zygote: typing.Optional[Zygote] = None) -> list:
     """Run the reads of a history on the real feeds: one fresh process per segment between restarts, all sharing a
-    ForML home directory and the storage files; -> [('rows', rows) | ('error', class, message)] per read"""
-    dbs, ops = history
+    ForML home directory and the storage files; -> [('rows', rows) | ('error', class, message)] per read.
+    history = (contents per storage, ops[, {'formats': {storage: {Table: format}}}])"""
+    dbs, ops = history[0], history[1]
+    formats = formats_of(history[2] if len(history) > 2 else None)
     own = zygote is None
     zygote = zygote or Zygote()
     root = tempfile.mkdtemp(prefix='verif-c06-')
     try:
         home = os.path.join(root, 'home')
         os.makedirs(home)
-        jdb = lambda d: {k: [v[0], [list(r) for r in v[1]]] for k, v in d.items()}  # noqa: E731
         segments, current = [], []
         for op in ops:
             if op[0] == 'restart':
@@ -1067,12 +1387,17 @@ def run_history(history, zygote: typing.Optional[Zygote] = None) -> list:
                 current.append(op)
         segments.append(current)
         outs = []
+        state = [dict(d) for d in dbs]
         for n, seg in enumerate(segments):
             if not seg and n:
                 continue
-            job = {'root': root, 'home': home, 'init': [jdb(d) for d in dbs] if n == 0 else None,
-                   'ops': [[o[0], o[1], o[2]] if o[0] == 'read' else [o[0], o[1], jdb(o[2])] for o in seg]}
+            job = {'root': root, 'home': home, 'init': [_jdb(d) for d in dbs] if n == 0 else None,
+                   'state': [_jdb(d) for d in state], 'formats': {str(k): v for k, v in formats.items()},
+                   'ops': [_jop(o) for o in seg]}
             outs.extend(tuple(x) for x in zygote.job(job))
+            for o in seg:
+                if o[0] == 'mutate':
+                    state[o[1]] = o[2]
         return outs
     finally:
         shutil.rmtree(root, ignore_errors=True)
@@ -1168,25 +1493,25 @@ def _mixed_explains(stmt, rows, versions) -> bool:
     return False
 
 
-def read_alone(feed, stmt, state):
+def read_alone(feed, stmt, state, cfg=None, extra=()):
     """the same read as the only operation of a fresh process with a fresh home over the same storage contents"""
-    return run_history(([dict(d) for d in state], [('read', feed, stmt)]), shared_zygote())[0]
+    return run_history(([dict(d) for d in state], [('read', feed, stmt) + tuple(extra)], cfg or {}), shared_zygote())[0]
 
 
-def judge_history(dbs, ops, outs, alone=None) -> list:
-    """oracle at reader level: every read returns what the statement denotes over the feed's own storage at read time;
-    -> [(what, signature, index of the op)].  A deviation gets the signature of a known root cause only if that root
-    cause explains the returned rows exactly."""
+def judge_history(dbs, ops, outs, alone=None, cfg=None) -> list:
+    """oracle at reader level: every read returns what the statement denotes over the feed's own storage - seen through
+    the feed's own mapping - at read time; -> [(what, signature, index of the op)].  A deviation gets the signature of a
+    known root cause only if that root cause explains the returned rows exactly."""
     state = [dict(d) for d in dbs]
-    lazy_versions = [dict(d) for i, d in enumerate(dbs) if FEED_KINDS[i] == 'lazy']
-    seen = []  # (feed, stmt, rows bag, storage version)
+    lazy_versions = [dict(d) for i, d in enumerate(dbs) if g.STORAGE_KINDS[i] == 'lazy']
+    seen = []  # (feed, stmt, rows bag, version of the feed's storage)
     verdicts, k = [], 0
     version = [0] * len(dbs)
     for idx, op in enumerate(ops):
         if op[0] == 'mutate':
             state[op[1]] = op[2]
             version[op[1]] += 1
-            if FEED_KINDS[op[1]] == 'lazy':
+            if g.STORAGE_KINDS[op[1]] == 'lazy':
                 lazy_versions.append(dict(op[2]))
             continue
         if op[0] != 'read':
@@ -1194,15 +1519,17 @@ def judge_history(dbs, ops, outs, alone=None) -> list:
         out = outs[k]
         k += 1
         feed, stmt = op[1], op[2]
+        store, kind = STORAGE[feed], FEED_KINDS[feed]
         try:
-            exp = g.denote(stmt, state[feed])
+            exp = g.denote(stmt, g.view(feed, state[store]))
         except g.Undefined:
             continue
         kinds = [kk for _, kk in g.out_columns(stmt)]
+        label = f'feed {feed} ({kind}, storage {store}, mapping {g.MAPPING[feed]})'
         if out[0] != 'rows':
-            sig = f'read-fails:{FEED_KINDS[feed]}:{out[1]}'
-            what = f'read via feed {feed} ({FEED_KINDS[feed]}) raises {out[1]}: {out[2]}'
-            if FEED_KINDS[feed] == 'lazy' and out[1] == 'DatabaseError' and unused_tables(stmt):
+            sig = f'read-fails:{kind}:{out[1]}'
+            what = f'read via {label} raises {out[1]}: {out[2]}'
+            if kind == 'lazy' and out[1] == 'DatabaseError' and unused_tables(stmt):
                 sig = SIG_UNUSED
                 what = (f'lazy feed {feed}: a table none of whose columns is used ({", ".join(sorted(t[1] for t in unused_tables(stmt)))}) '
                         f'is not registered in the backend, the read raises {out[1]}')
@@ -1212,39 +1539,46 @@ def judge_history(dbs, ops, outs, alone=None) -> list:
         bag = collections.Counter(rows)
         why = exp.admits(rows)
         if why is not None:
-            kind = FEED_KINDS[feed]
             sig = f'read-differs:{kind}'
-            what = f'read via feed {feed} ({kind}) returns rows other than denoted over its storage ({why})'
+            what = f'read via {label} returns rows other than denoted over its storage ({why})'
             earlier = [s for s in seen if s[1] == stmt and s[2] == bag and FEED_KINDS[s[0]] == kind]
             crossed = False
             if has_cross(stmt):
                 try:
-                    crossed = cross_as_full(stmt, state[feed]).admits(rows) is None
+                    crossed = cross_as_full(stmt, g.view(feed, state[store])).admits(rows) is None
                 except g.Undefined:
                     pass
+
+            def right_alone() -> bool:
+                """it is the history that matters iff the same read alone (fresh process, fresh home) is right"""
+                if alone is None:
+                    return True
+                try:
+                    single = alone(feed, stmt, state, cfg, op[3:])
+                    return single[0] == 'rows' and exp.admits(canon_rows([tuple(r) for r in single[1]], kinds)) is None
+                except Exception:  # pylint: disable=broad-except
+                    return True
+
             if crossed:
-                sig, what = SIG_CROSS, f'feed {feed} ({kind}): CROSS join over an empty and a non-empty side returns NULL-extended rows'
-            elif any(s[0] == feed and s[3] != version[feed] for s in earlier):
-                sig, what = SIG_STALE, f'feed {feed} ({kind}): re-reading a statement after its storage changed returns the rows of the earlier read'
-            elif any(s[0] != feed for s in earlier):
-                sig, what = SIG_SHARED, f'feed {feed} ({kind}): returns the rows another feed read from another storage for the same SQL text'
+                sig, what = SIG_CROSS, f'{label}: CROSS join over an empty and a non-empty side returns NULL-extended rows'
+            elif any(s[0] == feed and s[3] != version[store] for s in earlier):
+                sig, what = SIG_STALE, f'{label}: re-reading a statement after its storage changed returns the rows of the earlier read'
+            elif any(s[0] != feed and g.MAPPING[s[0]] == g.MAPPING[feed] for s in earlier):
+                sig, what = SIG_SHARED, f'{label}: returns the rows another feed read from another storage for the same SQL text'
+            elif any(s[0] != feed and g.MAPPING[s[0]] != g.MAPPING[feed] for s in earlier) and right_alone():
+                other = [s[0] for s in earlier if s[0] != feed and g.MAPPING[s[0]] != g.MAPPING[feed]][-1]
+                sig = SIG_FOREIGN
+                what = (f'{label}: the read returns the rows feed {other} (same connection, mapping {g.MAPPING[other]}: other '
+                        f'physical tables) read for the same statement instead of its own tables\' rows ({why})')
             elif kind == 'lazy' and _mixed_explains(stmt, rows, lazy_versions):
                 sig, what = SIG_LAZY, (f'lazy feed {feed}: reads table contents registered earlier in the process (by another feed or '
                                        f'before its storage changed)')
             else:
                 alien = [s for s in seen if s[1] != stmt and s[2] == bag]
-                if alien and alone is not None:
-                    # it is the history that matters iff the same read alone (fresh process, fresh home) is right
-                    try:
-                        single = alone(feed, stmt, state)
-                        if single[0] != 'rows' or exp.admits(canon_rows([tuple(r) for r in single[1]], kinds)) is not None:
-                            alien = []
-                    except Exception:  # pylint: disable=broad-except
-                        pass
-                if alien:
+                if alien and right_alone():
                     sig = SIG_ALIEN
-                    what = (f'feed {feed} ({kind}): the read returns the rows an earlier read of a DIFFERENT statement returned '
+                    what = (f'{label}: the read returns the rows an earlier read of a DIFFERENT statement returned '
                             f'({sexp.dumps(g.short(alien[-1][1]))[:160]}) instead of its own ({why})')
             verdicts.append((what, sig, idx))
-        seen.append((feed, stmt, bag, version[feed]))
+        seen.append((feed, stmt, bag, version[store]))
     return verdicts
